@@ -15,7 +15,27 @@ for p in THREAD:
     CONFIGS[p] = [('capacity 1', ['DBGROUP_MAX_THREAD_NUM=1']), ('capacity 2', ['DBGROUP_MAX_THREAD_NUM=2']),
                   ('capacity 3', ['DBGROUP_MAX_THREAD_NUM=3']), ('capacity 256', ['DBGROUP_MAX_THREAD_NUM=256'])]
 for p in LOCKS:
-    CONFIGS[p] = [('no spin retries', ['CPP_UTILITY_SPINLOCK_RETRY_NUM=0']), ('no spinlock hint', ['CPP_UTILITY_HAS_SPINLOCK_HINT=OFF'])]
+    CONFIGS[p] = [('no spin retries', ['CPP_UTILITY_SPINLOCK_RETRY_NUM=0'])]
+# configurations that are part of the quick tier as well: the build without the spin-lock hint (what CMake selects on a
+# machine without <x86intrin.h>) compiles CPP_UTILITY_SPINLOCK_HINT to nothing, which changes the statement structure
+QUICK_CONFIGS = {p: [('no spinlock hint', ['CPP_UTILITY_HAS_SPINLOCK_HINT=OFF'])] for p in LOCKS}
+
+
+def run_configs(pid, rep, configs):
+    import main as MAIN
+    import report as REPORT
+    known = {f['key'] for f in REPORT.load_known()[0] if f['property'] == pid}
+    cfg_out = rep.extra.setdefault('configurations', [])
+    for name, defs in configs:
+        r2 = MAIN.run_property(pid, 'quick', repo=MAIN.CURRENT_REPO, cmake_defs=defs, quiet=True, configs=False)
+        viol = [o for o in r2.obligations if o['status'] == 'violated' and ('%s %s' % (o['rule'], o['key'])) not in known]
+        cfg_out.append({'config': name, 'obligations': len(r2.obligations), 'violations': len(viol), 'broken': r2.broken[:2]})
+        for o in viol:
+            rep.violation(o['rule'], '[%s] %s' % (name, o['key']), o['loc'], o['detail'], o.get('data'))
+        if r2.broken:
+            rep.broken.append('configuration %s: %s' % (name, r2.broken[0]))
+        if not viol and not r2.broken:
+            rep.ok('CONFIG', '%s: all %d obligations hold' % (name, len(r2.obligations)), 'cmake -D' + ' -D'.join(defs), '')
 
 
 def extend(pid, rep):
@@ -23,7 +43,8 @@ def extend(pid, rep):
     import report as REPORT
     known = {f['key'] for f in REPORT.load_known()[0] if f['property'] == pid}
     cfg_out = []
-    for name, defs in CONFIGS.get(pid, []):
+    run_configs(pid, rep, CONFIGS.get(pid, []))
+    for name, defs in []:
         r2 = MAIN.run_property(pid, 'quick', cmake_defs=defs, quiet=True)
         viol = [o for o in r2.obligations if o['status'] == 'violated' and ('%s %s' % (o['rule'], o['key'])) not in known]
         cfg_out.append({'config': name, 'obligations': len(r2.obligations), 'violations': len(viol), 'broken': r2.broken[:2]})
@@ -33,7 +54,6 @@ def extend(pid, rep):
             rep.broken.append('configuration %s: %s' % (name, r2.broken[0]))
         if not viol and not r2.broken:
             rep.ok('CONFIG', '%s: all %d obligations hold' % (name, len(r2.obligations)), 'cmake -D' + ' -D'.join(defs), '')
-    rep.extra['configurations'] = cfg_out
     res = mutants.run_corpus([pid])
     caught = [r for r in res if r['verdict'] == 'caught']
     missed = [r for r in res if r['verdict'] in ('missed', 'unsupported')]
